@@ -1304,7 +1304,9 @@ func (r *Raft) sendRequestVote(id string, address string, votes *int, prevote bo
 	}
 
 	// Ensure this response is not stale. It is possible that this node has started another election.
-	if r.currentTerm > request.Term {
+	// A prevote asks about the term after the current one, so its responses are of no use once
+	// the term has changed.
+	if r.currentTerm > request.Term || (prevote && r.currentTerm+1 != request.Term) {
 		return
 	}
 
@@ -1322,7 +1324,7 @@ func (r *Raft) sendRequestVote(id string, address string, votes *int, prevote bo
 	// If this is a prevote and a majority of the cluster respond with success to this node's
 	// vote requests, become a candidate and start the real election right away so that it
 	// does not have to wait until the election ticker goes off again.
-	if r.hasQuorum(*votes) && r.state == PreCandidate {
+	if prevote && r.hasQuorum(*votes) && r.state == PreCandidate {
 		r.becomeCandidate()
 		r.sendRequestVoteToPeers()
 	}
